@@ -37,10 +37,11 @@ func (e *Engine) constTable(pi *PkgInfo, name string) (*tableInfo, string) {
 		return ti, ti.why
 	}
 	ti, why := e.constTable1(pi, name)
-	if ti != nil && !ti.runtime && len(ti.vals) > 8192 {
-		// a very large literal (the js lexer's 16080-entry transition table): quantified facts over
-		// that many literal equalities time the solvers out; they are evaluated on the initialised
-		// variable instead (exact for a constant table, reported as decided by evaluation)
+	if ti != nil && !ti.runtime && len(ti.vals) > 512 {
+		// a large literal (the lexers' transition tables: 2500 entries for tm, 16080 for js): quantified
+		// facts over that many literal equalities are the slowest queries of the suite and the first to
+		// time out on a loaded machine; they are evaluated on the initialised variable instead (exact
+		// for a constant table, reported as decided by evaluation). Small tables stay with the solvers.
 		ti.runtime = true
 	}
 	e.tables[key] = ti
